@@ -122,6 +122,48 @@ func RunShards(p *Prop, pc *ParentCtx, extraEnv []string) *Aggregate {
 		}(i, slot)
 	}
 
+	// shards re-run under the monitors built in other configurations (see ./check): extra build tags, the race detector's
+	// build. One or two shards each in the quick tier.
+	if extraEnv == nil {
+		for vi, variant := range []struct{ env, suffix, counter string }{
+			{"VMON_EXE_TAGS", ".tags", "shards-also-run-built-with-tags-purego,noasm,safe,appengine"},
+			{"VMON_EXE_RACEBUILD", ".racebuild", "shards-also-run-built-with-the-race-detector"},
+		} {
+			exe := os.Getenv(variant.env)
+			if exe == "" || exe == pc.Exe {
+				continue
+			}
+
+			step := 8
+			if pc.Tier == "thorough" {
+				step = 4
+			}
+
+			for i := int((pc.Seed + uint64(5*vi+1)) % uint64(step)); i < NShards; i += step {
+				wg.Add(1)
+
+				outs = append(outs, childOutcome{})
+				slot := len(outs) - 1
+				agg.Counters[variant.counter]++
+
+				go func(i, slot int, exe, suffix string) {
+					defer wg.Done()
+					sem <- struct{}{}
+					defer func() { <-sem }()
+
+					sub := *pc
+					sub.Exe = exe
+					env := []string{"GORACE=halt_on_error=0"}
+					if suffix == ".racebuild" {
+						env = append(env, "VMON_SCALE=8")
+					}
+
+					outs[slot] = runChildEnv(p, &sub, i, env, suffix)
+				}(i, slot, exe, variant.suffix)
+			}
+		}
+	}
+
 	// shards re-run on ONE processor (GOMAXPROCS=1: a one-CPU container): code that asks how many processors there are and
 	// takes another path on one is only wrong there
 	if extraEnv == nil {
